@@ -85,6 +85,7 @@ type c12Descs struct {
 	xresp  *thrift.TypeDescriptor // response wrapper of X (field 0: HResp, field 1: Ex)
 	t2jExc *t2j.BinaryConv
 	big    *thrift.TypeDescriptor
+	wide   *thrift.TypeDescriptor // many look-alike field names (dense name-index buckets)
 	// shared converter instances
 	t2j, t2jHTTP            *t2j.BinaryConv
 	j2t, j2tStrict, j2tHTTP *j2t.BinaryConv
@@ -119,6 +120,25 @@ func (f *c12Fix) parse() (*c12Descs, error) {
 	}
 	if bs, err := thrift.NewDescritorFromContent(context.Background(), "big.thrift", "namespace go verif\nstruct Big { 1: list<i64> l, 2: string s }\nservice B { Big M(1: Big req) }\n", nil, false); err == nil {
 		d.big, _ = RootOf(bs, "M")
+	}
+	{
+		var sb strings.Builder
+		sb.WriteString("namespace go verif\nstruct Wide {\n")
+		id := 1
+		for _, a := range []string{"a", "b"} {
+			for _, b := range []string{"a", "b"} {
+				for _, c := range []string{"a", "b"} {
+					for _, e := range []string{"a", "b", "c"} {
+						fmt.Fprintf(&sb, "  %d: optional i32 %s%s%s%s,\n", id, a, b, c, e)
+						id++
+					}
+				}
+			}
+		}
+		sb.WriteString("}\nservice W { Wide M(1: Wide req) }\n")
+		if ws, err := thrift.NewDescritorFromContent(context.Background(), "wide.thrift", sb.String(), nil, false); err == nil {
+			d.wide, _ = RootOf(ws, "M")
+		}
 	}
 	xc := t2j.NewBinaryConv(conv.Options{ConvertException: true})
 	d.t2jExc = &xc
@@ -470,6 +490,28 @@ func (f *c12Fix) ops() []c12Op {
 				sb.WriteString("GHOST")
 			}
 			return "ok:" + h.Sha([]byte(sb.String())), nil
+		}},
+		{"thrift.desc.lookups-wide", func(d *c12Descs) (string, []byte) {
+			if d.wide == nil {
+				return "no-desc", nil
+			}
+			var sb strings.Builder
+			st := d.wide.Struct()
+			for _, fd := range st.Fields() {
+				if g := st.FieldByKey(fd.Name()); g != fd {
+					if g == nil {
+						sb.WriteString("LOST:" + fd.Name() + ";")
+					} else {
+						sb.WriteString("WRONG:" + fd.Name() + "->" + g.Name() + ";")
+					}
+				}
+			}
+			for _, k := range []string{"aaaz", "zzzz", "aaa", "aaaaa"} {
+				if st.FieldByKey(k) != nil {
+					sb.WriteString("GHOST:" + k + ";")
+				}
+			}
+			return "ok:" + sb.String(), nil
 		}},
 		{"t2j.DoInto", func(d *c12Descs) (string, []byte) {
 			buf := make([]byte, 0, 8)
